@@ -11,7 +11,8 @@ Inductive case :=
 | CMarkRT (s : schema) (m : mark) (j : json) (back : res mark)
 | CStepRT (s : schema) (doc : node) (st : step) (j : json) (back : res step) (j2 : json)
           (r1 r2 : sresult) (m1 m2 : list range)
-| CDecode (s : schema) (j : json) (back : res node).          (* mutated / malformed JSON: classes must agree *)
+| CDecode (s : schema) (j : json) (back : res node)           (* mutated / malformed JSON: classes must agree *)
+| CDecodeStep (s : schema) (j : json) (back : res step).     (* the same for Step.from_json *)
 
 Definition agree (c : case) : bool :=
   match c with
@@ -27,6 +28,7 @@ Definition agree (c : case) : bool :=
     json_eqb (step_to_json s st) j && res_eqb step_eqb (step_from_json s j) back &&
     match back with Ok st' => json_eqb (step_to_json s st') j2 | _ => true end
   | CDecode s j back => res_eqb node_eqb (node_from_json s j) back
+  | CDecodeStep s j back => res_eqb step_eqb (step_from_json s j) back
   end.
 
 Definition holds (c : case) : bool :=
@@ -43,4 +45,5 @@ Definition holds (c : case) : bool :=
     | Err _ => false
     end
   | CDecode s j back => true
+  | CDecodeStep s j back => true
   end.
